@@ -132,6 +132,8 @@ def snap(objs):
 
 
 def run(name, args):
+    import logging
+    logging.disable(logging.WARNING)          # pyttb logs a warning per non-F-ordered intermediate; irrelevant here
     op = OPS[name]
     try:
         recv, thunk = op.call(args)
